@@ -25,13 +25,16 @@ impl InsertionEvaluator for OneShot {
     }
 }
 
-const KINDS: [(GoalKind, &str); 6] = [
+const KINDS: [(GoalKind, &str); 8] = [
     (GoalKind::OnlyUnassigned, "unassigned"),
     (GoalKind::OnlyWeightedUnassigned, "weighted-unassigned"),
     (GoalKind::OnlyTours, "tours"),
     (GoalKind::OnlyDistance, "distance"),
     (GoalKind::OnlyValue, "value"),
     (GoalKind::OnlyCost, "cost"),
+    // additive objectives summed up in ONE layer by the feature combinator
+    (GoalKind::SumToursDistance, "tours+distance"),
+    (GoalKind::SumUnassignedToursDistance, "unassigned+tours+distance"),
 ];
 
 fn names(lab: &Lab, seq: &[Visit]) -> Vec<String> {
